@@ -103,6 +103,10 @@ try:
         fr = cspuz.BoolGridFrame(s, 1, 1)
         graph.active_edges_single_cycle(s, fr, **kw)
         s.add_answer_key(fr)
+    elif fn == "single_loop":
+        fr = cspuz.BoolGridFrame(s, 1, 1)
+        fr.single_loop()  # the frame's own wrapper: no per-call argument exists, the configuration flag decides
+        s.add_answer_key(fr)
     elif fn == "crossable":
         fr = cspuz.BoolGridFrame(s, 1, 1)
         graph.active_edges_connected_crossable(s, fr, **kw)
